@@ -9,6 +9,8 @@ from ..report import fkey
 from ..rules import guards, truth, absint
 from ..rules.common import *
 
+META = {'technique': 'static analysis: custom AST/CFG/call-graph rules; truth tables of predicates; term-domain abstract interpretation (rules/absint.py) of the typing, categorisation and evaluation procedures over their finite input domains'}
+
 EXPLANATION = (
     'Decides the classification and evaluation contract on the code itself: the truth tables of _can_be_objective '
     '(direction AND permanent) and _can_be_constraint (direction AND reference) are computed from their return '
